@@ -168,7 +168,7 @@ func (c *Ctx) newFrame(fn *ssa.Function, caller *Frame) *Frame {
 		d = caller.Depth + 1
 	}
 	return &Frame{Fn: fn, Vals: map[ssa.Value]Value{}, Block: fn.Blocks[0], Caller: caller, Entered: map[*ssa.BasicBlock]bool{}, CallCount: map[string]int{}, Depth: d,
-		LoopOld: map[*ssa.BasicBlock]*Snapshot{}, LoopVariant: map[*ssa.BasicBlock]string{}}
+		LoopOld: map[*ssa.BasicBlock]*Snapshot{}, LoopVariant: map[*ssa.BasicBlock]string{}, LoopFrames: map[*ssa.BasicBlock]map[string]*loopFrame{}}
 }
 
 // funcEnv builds the spec environment for the function under verification.
